@@ -1231,6 +1231,11 @@ def r13_11(ctx):
         for c in walk_local(f0.node):
             if isinstance(c, ast.Call) and isinstance(c.func, ast.Name) and c.func.id in m.functions and m.functions[c.func.id] not in fns:
                 fns.append(m.functions[c.func.id])
+            # ... and class / static methods of Segment reached as cls.X / self.X / Segment.X
+            if isinstance(c, ast.Call) and isinstance(c.func, ast.Attribute) and isinstance(c.func.value, ast.Name) and c.func.value.id in ("cls", "self", "Segment"):
+                h = m.functions.get(f"Segment.{c.func.attr}")
+                if h is not None and h not in fns and c.func.attr not in ("adjust_line_length", "line", "control", "make_control", "get_line_length", "get_shape", "set_shape"):
+                    fns.append(h)
     for f in fns:
         for x in walk_local(f.node):
             if not (isinstance(x, ast.Call) and isinstance(x.func, ast.Attribute)):
